@@ -27,6 +27,7 @@ def instances(tier):
         for pot in ('HardSphere', 'Exponential', 'HardCoreLennardJones', 'LennardJones'):
             out.append(dict(name='dilute[%s,%s]' % (cl, pot), fn='dilute_step', args=dict(closure=cl, flag=fl, pot=pot), query_timeout_ms=120000))
     out.append(dict(name='b2-dilute', fn='b2_step', args={}, query_timeout_ms=120000))
+    out.append(dict(name='rescan[diameter]', fn='rescan_step', args={}, query_timeout_ms=120000))
     return out
 
 
@@ -98,3 +99,21 @@ def b2_step(E):
     B2 = pyPRISM.calculate.second_virial(P, extrapolate=False)
     E.claim_eq('B2=-c(k0)/2', B2['A', 'A'], -0.5 * F[0])
     E.claim('canary-sign', E.eq(B2['A', 'A'], 0.5 * F[0]), canary=True)
+
+
+def rescan_step(E):
+    """a packing-fraction scan on ONE System: after the diameter is re-assigned the next PRISM object is that of the new
+    diameter (hard-sphere potential without an explicit sigma), not of the first one"""
+    N = 3
+    B = build(E, 1, N, closures={'AA': 'PercusYevick'}, flags={'AA': False}, potentials={'AA': dict(kind='HardSphere', high='sym')}, omegas={'AA': 'SingleSite'}, diam={'A': 1})
+    P0 = B.S.createPRISM()
+    x = E.arr('x', (N,), default=0.15)
+    P0.cost(x)
+    B.d['A'] = B.dr * 2
+    B.S.diameter['A'] = B.d['A']
+    P = B.S.createPRISM()
+    rec = record_closures(P, B.types)
+    y = P.cost(x)
+    E.reachable('rescan')
+    claim_cost(E, B, P, x, y, rec, claims=('B', 'C'))
+    E.claim_eq('potential.sigma-follows-the-new-diameter', P.sys.potential['A', 'A'].sigma, B.d['A'])
